@@ -88,6 +88,9 @@ def task_sets(tier):
     out.append(("v3:alt3", ["getA", "getB", "multiget"], 2 if tier == "quick" else None))
     out.append(("v3:alt4", ["getA", "getB", "multiget"], 2))
     out.append(("v3:tick0", ["getA", "getB", "multiget"], 2))
+    out.append(("v3+reboot", ["getA", "getB"], None))
+    out.append(("v3+reboot", ["getA", "walk"], None))
+    out.append(("v3+reboot", ["getA", "getB", "setW1"], 2))
     out.append(("v2c:alt", ["getA", "getB", "multiget"], None))
     out.append(("v2c", ["setW1", "getA", "getB"], None))
     if tier == "thorough":
@@ -146,6 +149,11 @@ def make_run(env, names, tick=1.0, mode="tick1"):
 
     arrival = env.endswith("@arrival")  # the agent builds its answer when the request arrives
     env = env.split("@")[0]
+    # "+reboot": the engine is already known to the client and the agent has
+    # restarted since - the first request of every task is answered by a
+    # notInTimeWindow report (one per task at most)
+    reboot = env.endswith("+reboot")
+    env = env.replace("+reboot", "")
 
     def run(ctx):
         CLOCK.reset()
@@ -178,6 +186,16 @@ def make_run(env, names, tick=1.0, mode="tick1"):
         max_pending = 0
         results = {}
         with loop.running():
+            if reboot:
+                warm = loop.create_task(run_op_async(clients[0], OPS["getA"]), name="warm")
+                loop.run_ready()
+                while sender.pending:
+                    sender.answer(0, agent.handle(sender.pending[0]["packet"]))
+                    loop.run_ready()
+                if not warm.done() or warm.exception() is not None:
+                    raise HarnessError("warm-up exchange failed")
+                agent.reboot()
+                del agent.log[:]
             tasks = []
             for i, n in enumerate(names):
                 c = clients[i % len(clients)]
@@ -237,7 +255,13 @@ def make_run(env, names, tick=1.0, mode="tick1"):
         CLOCK.tick_per_read = 0.0
         CLOCK.on_read = None
         verdicts = [e.get("verdict") for e in agent.log]
-        obs = (tuple(sorted(results.items())), stuck, tuple(logged), tuple(v for v in verdicts if v not in ("ok", "unknown-engine-id")))
+        refused = [v for v in verdicts if v not in ("ok", "unknown-engine-id")]
+        if reboot:
+            # what a restart may cost: one refused request per task
+            for _ in names:
+                if "not-in-time-window" in refused:
+                    refused.remove("not-in-time-window")
+        obs = (tuple(sorted(results.items())), stuck, tuple(logged), tuple(refused))
         info = {"order": order, "max_pending": max_pending, "agent_log": agent.log, "bad_kwargs": bad_kwargs}
         run.last_info = info
         return obs, []
